@@ -49,14 +49,35 @@ LEVEL_NOTE = "no re-entrant callbacks, no self-returning callbacks, no waits-on 
 
 KNOWN_STRANDED = "Deferred:callbacks-stranded-behind-paused-chained-Deferred"
 
+def _fam(n, kinds, behs, pairs, depth, pauses=2, tpairs=99):
+    return dict(n=n, kinds=kinds, behs=behs, pairs=pairs, depth=depth, pauses=pauses, tpairs=tpairs)
+
+
+# one BFS per family (cross-shard splitting of one BFS re-explores most states, measured 6x waste):
+# kinds c=addCallback e=addErrback b=addBoth p=addCallbacks; behs v=value x=raise f=return Failure (+ d_j always)
 CFG = {
     "quick": {
-        "A": dict(n=2, pairs=3, tpairs=6, pauses=2, depth=8, split=4, groups=40),
-        "B": dict(n=3, pairs=2, tpairs=4, pauses=2, depth=6, split=3, groups=40),
+        "2-deep": _fam(2, "ceb", "vx", 2, 9),
+        "2-deep3": _fam(2, "ceb", "vx", 3, 7),
+        "2-pairs": _fam(2, "cp", "vxf", 3, 8),
+        "2-full": _fam(2, "cebp", "vxf", 2, 6),
+        "2-pauses": _fam(2, "b", "vx", 2, 10, pauses=4),
+        "3-mid": _fam(3, "ceb", "vx", 2, 7, tpairs=4),
+        "3-full": _fam(3, "cebp", "vxf", 2, 6, tpairs=4),
+        "3-cb": _fam(3, "cb", "vx", 2, 8, tpairs=4),
+        "3-structure": _fam(3, "b", "v", 2, 11, pauses=3),
+        "4-structure": _fam(4, "b", "v", 1, 9),
     },
     "thorough": {
-        "A": dict(n=2, pairs=3, tpairs=6, pauses=3, depth=10, split=5, groups=96),
-        "B": dict(n=3, pairs=3, tpairs=5, pauses=2, depth=7, split=4, groups=96),
+        "2-deep": _fam(2, "ceb", "vx", 3, 10),
+        "2-pairs": _fam(2, "cp", "vxf", 3, 10),
+        "2-full": _fam(2, "cebp", "vxf", 3, 8),
+        "2-pauses": _fam(2, "b", "vx", 3, 12, pauses=4),
+        "3-mid": _fam(3, "ceb", "vx", 2, 9),
+        "3-full": _fam(3, "cebp", "vxf", 2, 8, tpairs=5),
+        "3-cb": _fam(3, "cb", "vx", 3, 9),
+        "3-structure": _fam(3, "b", "v", 3, 14, pauses=3),
+        "4-structure": _fam(4, "b", "v", 2, 10),
     },
 }
 
@@ -195,6 +216,7 @@ class Model:
         self.script = script
         self.log = []
         self.stack = []
+        self.strand = set()
         M = self.m[i]
         self.touch(i)
         if op == "add":
@@ -242,7 +264,7 @@ class Model:
             raise ValueError(op)
 
 
-def scripts_for(model, op, i, kind):
+def scripts_for(model, op, i, kind, base=("v", "x", "f")):
     """every complete assignment of behaviours to the callbacks the reference runs for this operation"""
     out = []
     work = [()]
@@ -252,7 +274,7 @@ def scripts_for(model, op, i, kind):
         try:
             m2.apply(op, i, kind, dict(sc))
         except Need as need:
-            behs = ["v", "x", "f"] + ["d%d" % j for j in range(min(m2.nt + 1, m2.n)) if j != need.i]
+            behs = list(base) + ["d%d" % j for j in range(min(m2.nt + 1, m2.n)) if j != need.i]
             for b in reversed(behs):
                 work.append(sc + ((need.cid, b),))
         else:
@@ -276,7 +298,7 @@ def _quiet():
 
 
 class St:
-    def __init__(self, cfg, roots=None):
+    def __init__(self, cfg):
         from twisted.internet.defer import Deferred
         _quiet()
         self.cfg = cfg
@@ -290,8 +312,6 @@ class St:
         self.flags = set()
         self.bad = []
         self.lastop = "-"
-        self.roots = roots
-        self.loaded = roots is None
 
 
 def classify(st, r):
@@ -333,11 +353,6 @@ def mkfn(st, i, cid, slot):
 
 def apply(st, ev):
     op = ev[0]
-    if op == "load":
-        st.loaded = True
-        for e in ev[1]:
-            apply(st, tuple(e))
-        return
     i, kind = ev[1], ev[2]
     script = {c: b for c, b in ev[3]}
     d = st.d[i]
@@ -380,8 +395,6 @@ def apply(st, ev):
 
 
 def enabled(st):
-    if not st.loaded:
-        return [("load", h) for h in st.roots]
     mo = st.model
     if mo.open:
         return []
@@ -402,11 +415,11 @@ def enabled(st):
         np_ = sum(1 for e in M.pending if e[0] == "pair")
         runs_now = M.fired and not M.paused()
         if runs_now or (np_ < cfg["pairs"] and tot_pairs < cfg["tpairs"]):
-            for kind in "cebp":
+            for kind in cfg.get("kinds", "cebp"):
                 core.append(("add", i, kind))
     evs = []
     for op, i, kind in core:
-        for sc in scripts_for(mo, op, i, kind):
+        for sc in scripts_for(mo, op, i, kind, cfg.get("behs", "vxf")):
             evs.append((op, i, kind, [list(x) for x in sc]))
     return evs
 
@@ -457,21 +470,12 @@ def invariant(st, hist):
     for cid, c in st.count.items():
         if c > 1:
             out.append(("Deferred:callback-ran-twice", "callback #%d ran %d times" % (cid, c)))
-    stranded = []
     logbad = []
-    for i in sorted(mo.strand):
-        # known defect shape: the reference went on with d_i's later pairs, the real Deferred still holds them
-        rl = [x[1:] for x in st.rlog if x[0] == i]
-        ml = [x[1:] for x in mo.log if x[0] == i]
-        rem, mrem = _remaining_real(st, i), _remaining_model(st, i)
-        if ml[:len(rl)] == rl and (len(rl) < len(ml) or (rem is not None and rem != mrem)) and \
-                (rem is None or (len(rem) > len(mrem) and rem[len(rem) - len(mrem):] == mrem)):
-            stranded.append((i, [c for c, _ in ml[len(rl):]], rem))
     if st.rlog != mo.log:
         for i in range(st.n):
             rl = [x[1:] for x in st.rlog if x[0] == i]
             ml = [x[1:] for x in mo.log if x[0] == i]
-            if rl == ml or any(s[0] == i for s in stranded):
+            if rl == ml:
                 continue
             if len(rl) < len(ml) and ml[:len(rl)] == rl:
                 logbad.append(("Deferred:callback-not-run:after-" + st.lastop,
@@ -488,15 +492,30 @@ def invariant(st, hist):
                 else:
                     logbad.append(("Deferred:callback-order-mismatch:after-" + st.lastop,
                                    "d%d: reference ran %r, real ran %r" % (i, ml, rl)))
-    if stranded and not logbad and not out:
-        # known defect; everything else that differs in this state is a consequence of it
-        return [(KNOWN_STRANDED,
-                 "d%d is fired and not paused, but did not go on with its callbacks (reference ran %r; still "
-                 "held: %r): a Deferred chained to it was still paused when the continuation was reached"
-                 % stranded[0])]
-    out.extend(logbad)
-    if out:
-        return out
+    if not out and not logbad:
+        out = _state_mismatches(st)
+    else:
+        out.extend(logbad)
+    if out and not st.bad and mo.strand:
+        # Classification only (the verdict is the mismatch above).  Known defect: in this very step the
+        # reference handed a result to a waiter that stayed paused, and the real donor -- fired, not paused,
+        # not running -- still sits on the entries that come after that continuation.  Everything else that
+        # differs in this state (later callbacks, second waiters never resumed) follows from it.
+        for i in sorted(mo.strand):
+            d = st.d[i]
+            cbs = getattr(d, "callbacks", None)
+            if isinstance(cbs, list) and cbs and getattr(d, "called", False) and not getattr(d, "paused", 0) \
+                    and len(cbs) > len(mo.m[i].pending):
+                return [(KNOWN_STRANDED,
+                         "d%d is fired and not paused but still holds %d unprocessed callback entries after a "
+                         "Deferred chained to it was found paused at its continuation; first difference: %s"
+                         % (i, len(cbs), out[0][1]))]
+    return out
+
+
+def _state_mismatches(st):
+    mo = st.model
+    out = []
     for i in range(st.n):
         d, M = st.d[i], mo.m[i]
         rr = classify(st, getattr(d, "result", NO))
@@ -553,8 +572,6 @@ _PERMS = {}
 
 
 def canon(st):
-    if not st.loaded:
-        return "root"
     n, nt = st.n, st.model.nt
     projs = [_proj(st, i) for i in range(nt)]
     perms = _PERMS.get((n, nt))
@@ -573,80 +590,43 @@ def canon(st):
 
 # ---------------------------------------------------------------- driver
 
-def _frontier(cfg):
-    """distinct canonical states first reached at exactly the split depth (one representative history each)"""
-    k = cfg["split"]
-    front = []
-
-    def on_state(st, h):
-        if len(h) == k:
-            front.append([list(e) for e in h])
-
-    bfs(lambda: St(cfg), apply, enabled, canon, invariant, k, on_state=on_state)
-    return front
-
-
 def shards(tier, seed):
-    out = []
-    for fam, cfg in sorted(CFG[tier].items()):
-        out.append([fam, "pre", None])
-        front = _frontier(cfg)
-        g = cfg["groups"]
-        out.extend([fam, "suf", grp] for grp in (front[i::g] for i in range(g)) if grp)
-    return out
-
-
-def _on_state(stats, fam):
-    def on_state(st, h):
-        if st.flags:
-            stats.nt((fam, canon(st)))
-        for f in st.flags:
-            stats.outcome(f)
-        if st.model.open:
-            stats.outcome("cycle-out-of-scope")
-    return on_state
+    return sorted(CFG[tier])
 
 
 def run_shard(shard, tier, seed):
-    fam, phase, roots = shard
+    fam = shard
     cfg = CFG[tier][fam]
     stats = Stats()
     extra = {"tier": tier, "family": fam}
 
     def inv(st, hist):
+        for f in st.flags:
+            stats.outcome(f)
+        if st.model.open:
+            stats.outcome("cycle-out-of-scope")
         bad = invariant(st, hist)
         for sig, detail in bad:
-            stats.violation(sig, detail, dict(extra, history=_flatten(hist)))
+            stats.violation(sig, detail, dict(extra, history=[list(e) for e in hist]))
         return bad
 
-    if phase == "pre":
-        res = bfs(lambda: St(cfg), apply, enabled, canon, inv, cfg["split"], on_state=_on_state(stats, fam))
-    else:
-        res = bfs(lambda: St(cfg, roots), apply, enabled, canon, inv, cfg["depth"] - cfg["split"] + 1,
-                  on_state=_on_state(stats, fam))
-        res.states -= 1 + len(roots)        # the synthetic root and the re-loaded frontier states
-        res.transitions -= len(roots)
+    def on_state(st, h):
+        if st.flags:
+            stats.nt((fam, canon(st)))
+
+    res = bfs(lambda: St(cfg), apply, enabled, canon, inv, cfg["depth"], on_state=on_state)
     res.violations = []                     # already folded in by inv (bfs keeps only the first 20)
     stats.add_bfs(res, extra)
-    stats.samples = [_flatten(h) for h in res.samples[:2]]
+    stats.samples = [{"family": fam, "history": h} for h in res.samples[-1:]]
+    stats.count("states_" + fam, res.states)
     return stats
 
 
-def _flatten(hist):
-    out = []
-    for ev in hist:
-        if ev[0] == "load":
-            out.extend(tuple(e) for e in ev[1])
-        else:
-            out.append(tuple(ev))
-    return out
-
-
 def replay(w):
-    cfg = CFG[w.get("tier", "quick")][w.get("family", "A")]
+    cfg = CFG[w.get("tier", "quick")][w["family"]]
     st = St(cfg)
-    for ev in _flatten(w["history"]):
-        apply(st, ev)
+    for ev in w["history"]:
+        apply(st, tuple(ev))
         bad = invariant(st, None)
         if bad:
             return bad
